@@ -23,6 +23,12 @@ and the text is parsed by the real ``beanquery.parser.parse``;  the result must 
                 `1.` `.5` `1.50`, dates incl. month ends and leap day, both quotings, quotes inside strings,
                 comment openers inside strings) in 4-6 contexts, and all 399 lists of 1..3 literals over a
                 7-letter literal alphabet.
+    * int-chain left-associative subtraction chains of integer literals a-b, a-b-c, a-b-c-d, col-a-b-c, -n-a-b-c with
+                four-digit first operands and one/two/three-digit followers (2020-1-5, 2020-13-5, 2020-2-30,
+                2020-12-31, 12345-1-1, 999-12-31 ...) as target / WHERE / FROM / HAVING, printed tight (no blanks;
+                the printer puts one blank only where the chain would spell the date literal YYYY-MM-DD and the
+                run asserts that) and spaced; a text table with leading-zero spellings (2020-01-5, 2020-1-05 are
+                subtractions, 2020-01-05 is a date).
     * ident     identifier spellings: plain, with digits / underscores, every reserved word + digit (quick) /
                 + letter, letter + reserved word, '_' + reserved word (thorough), every reserved word + '_'
                 suffix (see FINDING below), each in 15 syntactic positions.
@@ -428,6 +434,69 @@ def ident_cases(al, thorough=True):
 
 
 # ---------------------------------------------------------------------------------------------------------
+# subtraction chains of integer literals (the date literal YYYY-MM-DD must not swallow them)
+
+INT_CHAINS = [
+    [2020, 1, 5], [2020, 1, 15], [2020, 10, 5], [2020, 12, 31], [2020, 13, 5], [2020, 2, 30], [2020, 1, 555], [2020, 12, 315], [1999, 9, 9],
+    [12345, 1, 1], [12345, 11, 11], [999, 1, 1], [999, 12, 31], [2020, 1], [2020, 12], [2020, 1, 5, 3], [2020, 12, 31, 10], [0, 0, 0], [2015, 1, 4],
+]
+# spellings that no AST print produces (leading zeros): text -> chain of values, or a date
+INT_CHAIN_TEXTS = [
+    ('2020-01-5', [2020, 1, 5]), ('2020-1-05', [2020, 1, 5]), ('2020-001-05', [2020, 1, 5]), ('02020-01-05', [2020, 1, 5]), ('2020-1-5', [2020, 1, 5]),
+    ('2020 - 01 - 05', [2020, 1, 5]), ('2020- 01-05', [2020, 1, 5]), ('2020 -01-05', [2020, 1, 5]), ('2020-01 -05', [2020, 1, 5]), ('2020-01- 05', [2020, 1, 5]),
+    ('2020-13-5', [2020, 13, 5]), ('2020-2-30', [2020, 2, 30]), ('1999-9-9', [1999, 9, 9]), ('2020-1-555', [2020, 1, 555]),
+    ('2020-01-05', DATE(2020, 1, 5)), ('2020-12-31', DATE(2020, 12, 31)),
+]
+
+
+def _chain(values, first=None):
+    e = first if first is not None else A.Constant(values[0])
+    for v in (values if first is not None else values[1:]):
+        e = A.Sub(e, A.Constant(v))
+    return e
+
+
+def _in_positions(al, e):
+    c = A.Column(al.col)
+    yield 'target', _sel([A.Target(e, None)])
+    yield 'where', _sel([A.Target(c, None)], A.Table(al.table), A.Greater(e, A.Constant(0)))
+    yield 'from', _sel([A.Target(c, None)], A.From(A.Equal(A.Column('year'), e), None, None, None))
+    yield 'having', _sel([A.Target(c, None), A.Target(A.Function('count', [A.Asterisk()]), None)], A.Table(al.table), None,
+                         A.GroupBy([1], A.Less(e, A.Function('count', [A.Asterisk()]))))
+
+
+def int_chain_cases(al):
+    """(label, statement AST) to be printed tight and spaced; (label, text, expected AST) for the text table."""
+    for values in INT_CHAINS:
+        for first in (None, A.Column('year'), A.Neg(A.Constant(7))):
+            e = _chain(values, first)
+            for pos, st in _in_positions(al, e):
+                if first is None or pos in ('target', 'where'):
+                    yield ('ast', (pos, '-'.join(map(str, values)), type(first).__name__), st)
+    for text, exp in INT_CHAIN_TEXTS:
+        e = A.Constant(exp) if isinstance(exp, DATE) else _chain(exp)
+        yield ('text', ('target', text), f'SELECT {text}', _sel([A.Target(e, None)]))
+        yield ('text', ('operand', text), f'SELECT {al.col}-{text} AS {al.alias}',
+               _sel([A.Target(A.Sub(A.Column(al.col), e) if isinstance(exp, DATE) else _chain(exp, A.Column(al.col)), al.alias)]))
+        yield ('text', ('where', text), f'SELECT * WHERE {text}>{al.col}', _sel(A.Asterisk(), None, A.Greater(e, A.Column(al.col))))
+
+
+def printer_selfcheck():
+    """The tight print of an integer subtraction chain must be tight unless that would spell a date literal
+    (harness assertion, not a verdict)."""
+    from ..unparse import unparse
+    for values, want in (([2020, 1, 5], '2020-1-5'), ([2020, 12, 31], '2020 -12-31'), ([12345, 12, 31], '12345-12-31'), ([999, 12, 31], '999-12-31'),
+                         ([2020, 12, 315], '2020 -12-315'), ([2020, 13, 5], '2020-13-5'), ([2020, 12, 31, 10], '2020 -12-31-10')):
+        got = unparse(_chain(values), 'minimal', 3)
+        if got != want:
+            raise AssertionError(f'tight print of the subtraction chain {values} is {got!r}, expected {want!r}')
+        for style in (0, 1, 2, 3):
+            import re
+            if re.search(r'(?<!\d)\d{4}-\d{2}-\d{2}', unparse(_chain(values), 'minimal', style)):
+                raise AssertionError(f'the print of the subtraction chain {values} in style {style} contains a date literal')
+
+
+# ---------------------------------------------------------------------------------------------------------
 # statements
 
 def from_forms(al):
@@ -725,6 +794,13 @@ def units(tier, seed, diff_all=True):
         yield from emit('nary-bool', ('extra', j), wrap(e), idx)
     for label, text, exp in literal_cases(al):
         yield ('text', 'literal', label, text, exp, True)
+    for kind, label, *rest in int_chain_cases(al):
+        if kind == 'text':
+            yield ('text', 'int-chain', label, rest[0], rest[1], True)
+        else:
+            idx += 1
+            for j, (p, st) in enumerate([('minimal', 3), ('minimal', 0), ('full', 3)] + ([('minimal', 1), ('minimal', 2)] if thorough else [])):
+                yield ('ast', 'int-chain', label, rest[0], p, st, seed + idx + j, diff_all or j == 0)
     for label, name, node in ident_cases(al, thorough):
         idx += 1
         yield from emit('ident', label + (name,), node, idx)
@@ -836,6 +912,8 @@ def check_unit(u, acc):
                 fp = f'roundtrip:ident:{label[0]}:{label[1]}'
             elif group == 'literal':
                 fp = f'roundtrip:literal:{type(_first_constant(expected)).__name__}'
+            elif group == 'int-chain':
+                fp = 'roundtrip:int-chain'
             else:
                 fp = f'roundtrip:{group}:{parens}'
             case = dict(base, mode='roundtrip', parens=parens, style=style, expected=ast_to_json(expected))
@@ -893,6 +971,7 @@ def replay(case):
 
 def run(ctx):
     load_regenerated()
+    printer_selfcheck()
     if _REGEN_INFO['grammar_word_tokens_missing_from_RESERVED']:
         # the printer would use these words as identifiers: a harness problem, not a verdict
         raise AssertionError(f"the grammar has word tokens unknown to vt.unparse.RESERVED: {_REGEN_INFO['grammar_word_tokens_missing_from_RESERVED']}")
